@@ -3,7 +3,6 @@
 package knx
 
 import (
-	"container/list"
 	"time"
 
 	"github.com/vapourismo/knx-go/knx/cemi"
@@ -17,109 +16,117 @@ func init() {
 
 var c14Msgs = [8]cemi.Message{&cemi.LDataInd{}, &cemi.LDataInd{}, &cemi.LDataInd{}, &cemi.LDataInd{}, &cemi.LDataInd{}, &cemi.LDataInd{}, &cemi.LDataInd{}, &cemi.LDataInd{}}
 
-func c14Retained(r *Router) []cemi.Message {
-	var out []cemi.Message
-	for e := r.retainer.Front(); e != nil; e = e.Next() {
-		out = append(out, e.Value.(cemi.Message))
+func c14Equal(got, want []int) bool {
+	if len(got) != len(want) {
+		return false
 	}
-	return out
+	for i := range got {
+		if got[i] != want[i] {
+			return false
+		}
+	}
+	return true
 }
 
-// HarnessC14Step: a = {R retain count, r retained before, mode: 0 Send succeeds, 1 Send fails,
-// 2 lost indication, 3 lost indication with the k-th retransmission failing}. One real step from
-// an arbitrary retained history (messages are distinct objects).
+// c14Probe asks the client to repeat everything it retains (lost count 65535) and returns what it
+// transmitted in answer: the retained history, oldest first. Repetitions are retained again, so the
+// history is the same afterwards.
+func c14Probe(in chan knxnet.Service) []int {
+	base := verifNetWrites()
+	in <- &knxnet.RoutingLost{Count: 65535}
+	verifQuiesce()
+	ids, _ := routerSent()
+	return ids[base:]
+}
+
+// HarnessC14Step: a = {R retain count, r successful sends before, mode: 0 Send succeeds, 1 Send fails,
+// 2 lost indication (count symbolic), 3 lost indication with the transmission failing from a
+// nondeterministic repetition on}. The client is built by NewRouter; its history is produced by r
+// real Sends and observed through what a lost indication makes it repeat.
 func HarnessC14Step(a []int) {
 	R, r, mode := a[0], a[1], a[2]
-	sock := newVSock()
-	router := &Router{sock: sock, config: RouterConfig{RetainCount: uint(R)}, inbound: make(chan cemi.Message), retainer: list.New()}
-	old := make([]cemi.Message, r)
+	router, in := newRouterEnv(uint(R), 0)
+	var hist []int
 	for i := 0; i < r; i++ {
-		old[i] = c14Msgs[i]
-		router.retainer.PushBack(c14Msgs[i])
+		verifAssert("C14.step.setup_send", router.Send(rmsg(i)) == nil)
+		verifQuiesce()
+		hist = append(hist, i)
+		if len(hist) > R {
+			hist = hist[1:]
+		}
 	}
 	switch mode {
 	case 0, 1:
-		sock.failSend = mode == 1
-		m := c14Msgs[7]
-		err := router.Send(m)
-		alive := verifQuiesce()
-		verifAssert("C14.step.no_goroutine_left", alive == 0)
-		got := c14Retained(router)
+		if mode == 1 {
+			verifNetFailFrom(0)
+		}
+		base := verifNetWrites()
+		err := router.Send(rmsg(7))
+		verifQuiesce()
+		verifNetFailFrom(-1)
 		if mode == 1 {
 			verifCover("C14.step.sendfail")
-			verifAssert("C14.step.failed_not_retained", err != nil && len(got) == r)
-			for i := range got {
-				verifAssert("C14.step.failed_history_kept", got[i] == old[i])
+			verifAssert("C14.step.failed_reports_error", err != nil && verifNetWrites() == base)
+			verifAssert("C14.step.failed_not_retained", c14Equal(c14Probe(in), hist))
+		} else {
+			verifCover("C14.step.sent")
+			ids, _ := routerSent()
+			verifAssert("C14.step.sent_one", err == nil && len(ids) == base+1 && ids[base] == 7)
+			want := append(append([]int{}, hist...), 7)
+			if len(want) > R {
+				want = want[len(want)-R:]
 			}
-			return
+			got := c14Probe(in)
+			verifAssert("C14.step.bounded_history", len(got) <= R)
+			verifAssert("C14.step.history", c14Equal(got, want))
 		}
-		verifCover("C14.step.sent")
-		want := append(append([]cemi.Message{}, old...), m)
-		if len(want) > R {
-			want = want[len(want)-R:]
-		}
-		verifAssert("C14.step.sent_one", err == nil && len(sock.log) == 1 && sock.log[0].(*knxnet.RoutingInd).Payload == m)
-		verifAssert("C14.step.bounded_history", len(got) == len(want) && len(got) <= R)
-		for i := range got {
-			verifAssert("C14.step.history", got[i] == want[i])
-		}
-		// the client can still send
-		verifAssert("C14.step.still_usable", router.Send(c14Msgs[6]) == nil)
+		verifAssert("C14.step.still_usable", router.Send(rmsg(6)) == nil)
 	default:
 		count := nondetU16()
-		if mode == 3 {
-			sock.failFrom = nondetChoice(r + 1)
-		}
-		router.resendLost(count)
-		alive := verifQuiesce()
-		verifAssert("C14.lost.no_goroutine_left", alive == 0)
 		k := int(count)
-		if k > r {
-			k = r
+		if k > len(hist) {
+			k = len(hist)
 		}
+		if mode == 3 {
+			verifNetFailFrom(nondetChoice(k + 1))
+		}
+		base := verifNetWrites()
+		in <- &knxnet.RoutingLost{Count: count}
+		verifQuiesce()
+		verifNetFailFrom(-1)
+		ids, _ := routerSent()
+		resent := ids[base:]
 		verifObserve("k", k)
 		if mode == 2 {
 			verifCover("C14.lost.resent")
-			verifAssert("C14.lost.exactly_last_k", len(sock.log) == k)
-			for i := 0; i < k; i++ {
-				verifAssert("C14.lost.original_order", sock.log[i].(*knxnet.RoutingInd).Payload == old[r-k+i])
-			}
-			got := c14Retained(router)
-			verifAssert("C14.lost.history_len", len(got) == r)
-			for i := range got {
-				verifAssert("C14.lost.history", got[i] == old[i])
-			}
+			verifAssert("C14.lost.exactly_last_k_in_order", c14Equal(resent, hist[len(hist)-k:]))
+			verifAssert("C14.lost.history_kept", c14Equal(c14Probe(in), hist))
 		} else {
 			verifCover("C14.lost.partial")
-			// failed retransmissions are not retained again, successful ones are, in order
-			for i, f := range sock.log {
-				verifAssert("C14.lost.original_order", f.(*knxnet.RoutingInd).Payload == old[r-k+i])
-			}
-			verifAssert("C14.lost.bounded_history", router.retainer.Len() <= R)
+			// what went out is a prefix of the lost ones, in the original order
+			verifAssert("C14.lost.original_order", len(resent) <= k && c14Equal(resent, hist[len(hist)-k:len(hist)-k+len(resent)]))
+			verifAssert("C14.lost.bounded_history", len(c14Probe(in)) <= R)
 		}
-		sock.failFrom = -1
-		verifAssert("C14.lost.still_usable", router.Send(c14Msgs[6]) == nil)
+		verifAssert("C14.lost.still_usable", router.Send(rmsg(6)) == nil)
 	}
+	router.Close()
+	close(in)
+	verifQuiesce()
+	_, open := <-router.Inbound()
+	verifAssert("C14.step.inbound_closed_after_close", !open)
 }
 
-// HarnessC14Run: a = {scenario}: the real serve goroutine with senders, indications, a slow or
-// absent reader and Close. No deadlock, every received routing indication reaches Inbound
-// exactly once (while the reader keeps reading), Inbound is closed after Close.
+// HarnessC14Run: a = {scenario}: the real server goroutine (started by NewRouter) with senders,
+// indications, a slow or absent reader and Close. No deadlock, every received routing indication
+// reaches Inbound exactly once (while the reader keeps reading), Inbound is closed after Close.
 func HarnessC14Run(a []int) {
 	scenario := a[0]
-	sock := newVSock()
-	router := &Router{sock: sock, config: RouterConfig{RetainCount: 2}, inbound: make(chan cemi.Message), retainer: list.New(),
-		postSendPause: 5 * time.Millisecond}
-	serveDone := false
-	go func() {
-		router.serve()
-		serveDone = true
-	}()
-	var got []cemi.Message
+	router, in := newRouterEnv(2, 5*time.Millisecond)
+	var got []int
 	readerDone := false
 	reader := func() {
 		for m := range router.Inbound() {
-			got = append(got, m)
+			got = append(got, rid(m))
 		}
 		readerDone = true
 	}
@@ -127,67 +134,71 @@ func HarnessC14Run(a []int) {
 		go reader()
 	}
 	sent := 0
-	sender := func(ms ...cemi.Message) {
+	sender := func(ms ...int) {
 		for _, m := range ms {
-			router.Send(m)
+			router.Send(rmsg(m))
 			sent++
 		}
 	}
-	x1, x2 := c14Msgs[4], c14Msgs[5]
+	shutdown := func() { // Close, then the socket's receiver closes its channel
+		router.Close()
+		close(in)
+	}
+	x1, x2 := rmsg(40), rmsg(41)
 	switch scenario {
 	case 0: // traffic, a lost indication, a busy indication, then Close
-		go sender(c14Msgs[0], c14Msgs[1])
-		sock.in <- &knxnet.RoutingInd{Payload: x1}
-		sock.in <- &knxnet.RoutingLost{Count: nondetU16()}
-		sock.in <- &knxnet.RoutingInd{Payload: x2}
-		sock.in <- &knxnet.RoutingBusy{WaitTime: 10 * time.Millisecond, Control: uint16(nondetChoice(2))}
-		go sender(c14Msgs[2])
+		go sender(0, 1)
+		in <- &knxnet.RoutingInd{Payload: x1}
+		in <- &knxnet.RoutingLost{Count: nondetU16()}
+		in <- &knxnet.RoutingInd{Payload: x2}
+		in <- &knxnet.RoutingBusy{WaitTime: 10 * time.Millisecond, Control: uint16(nondetChoice(2))}
+		go sender(2)
 		verifSleep(int64(time.Second))
-		close(sock.in)
+		shutdown()
 		verifQuiesce()
 		verifAssert("C14.run.sends_return", sent == 3)
 	case 1: // two busy indications back to back while senders are active
-		go sender(c14Msgs[0])
-		go sender(c14Msgs[1])
-		sock.in <- &knxnet.RoutingBusy{WaitTime: 30 * time.Millisecond}
-		sock.in <- &knxnet.RoutingInd{Payload: x1}
-		sock.in <- &knxnet.RoutingBusy{WaitTime: 500 * time.Millisecond, Control: 1}
-		sock.in <- &knxnet.RoutingInd{Payload: x2}
+		go sender(0)
+		go sender(1)
+		in <- &knxnet.RoutingBusy{WaitTime: 30 * time.Millisecond}
+		in <- &knxnet.RoutingInd{Payload: x1}
+		in <- &knxnet.RoutingBusy{WaitTime: 500 * time.Millisecond, Control: 1}
+		in <- &knxnet.RoutingInd{Payload: x2}
 		verifSleep(int64(time.Second))
-		close(sock.in)
+		shutdown()
 		verifQuiesce()
 		verifAssert("C14.run.sends_return", sent == 2)
 	case 3: // Close while telegrams are parked; the reader arrives only afterwards: its range loop must end
-		sock.in <- &knxnet.RoutingInd{Payload: x1}
-		sock.in <- &knxnet.RoutingInd{Payload: x2}
+		in <- &knxnet.RoutingInd{Payload: x1}
+		in <- &knxnet.RoutingInd{Payload: x2}
 		verifQuiesce()
-		close(sock.in)
+		shutdown()
 		verifQuiesce()
 		go reader()
 		verifQuiesce()
-		verifAssert("C14.run.serve_ends", serveDone)
 		verifAssert("C14.run.inbound_closed", readerDone)
 		for i, m := range got {
-			verifAssert("C14.run.parked_in_order", (i == 0 && m == x1) || (i == 1 && m == x2))
+			verifAssert("C14.run.parked_in_order", m == 40+i)
 		}
+		verifAssert("C14.run.socket_closed_once", verifNetClosed() == 1)
 		verifCover("C14.run.end")
 		return
 	case 2: // reader absent during the traffic, arrives late, then Close
-		sock.in <- &knxnet.RoutingInd{Payload: x1}
-		sock.in <- &knxnet.RoutingInd{Payload: x2}
+		in <- &knxnet.RoutingInd{Payload: x1}
+		in <- &knxnet.RoutingInd{Payload: x2}
 		go reader()
 		verifQuiesce()
-		close(sock.in)
+		shutdown()
 		verifQuiesce()
 	}
-	verifAssert("C14.run.serve_ends", serveDone)
 	verifAssert("C14.run.inbound_closed", readerDone)
+	verifAssert("C14.run.socket_closed_once", verifNetClosed() == 1)
 	n1, n2 := 0, 0
 	for _, m := range got {
-		if m == x1 {
+		if m == 40 {
 			n1++
 		}
-		if m == x2 {
+		if m == 41 {
 			n2++
 		}
 	}
